@@ -141,6 +141,8 @@ async def _hist_impl(cfg: str, w: int, ops: list) -> list[str]:
         B = bitarray_cls()
         arrays: dict = {}
         for op in ops:
+            if op[0] in TIMED_OPS:
+                raise HarnessError("a bare Bitarray has no lifetime: timed history with cfg=bitarray")
             try:
                 arr = arrays.get(op[1])
                 if arr is None:
@@ -168,16 +170,32 @@ async def _hist_impl(cfg: str, w: int, ops: list) -> list[str]:
         await api.init()
     try:
         for op in ops:
-            key = f"bits:{op[1]}"
             try:
+                if op[0] == "adv":                      # virtual time passes, nothing touches any key (no purge task: check_interval=0)
+                    vtime.CLOCK.advance(op[1])
+                    outs.append("r=-")
+                    continue
+                key = f"bits:{op[1]}"
                 if op[0] == "incr":
                     res = await api.incr_bits(key, *op[3], size=w, by=op[2])
-                else:
+                elif op[0] == "get":
                     res = await api.get_bits(key, *op[2], size=w)
+                elif op[0] == "expire":
+                    res = await api.expire(key, op[2] * vtime.TICK)
+                    outs.append("r=-" if res is None else f"?{res!r}")
+                    continue
+                elif op[0] in ("del", "touch"):
+                    res = await (api.delete(key) if op[0] == "del" else api.exists(key))
+                    outs.append(f"r={int(res)}" if type(res) is bool else f"?{res!r}")
+                    continue
+                else:
+                    raise HarnessError(f"unknown history op {op}")
                 if not isinstance(res, tuple) or not all(type(x) is int for x in res):
                     outs.append(f"?{res!r}")
                 else:
                     outs.append("r=" + showl(res))
+            except HarnessError:
+                raise
             except Exception as e:  # noqa: BLE001
                 outs.append("E:" + type(e).__name__)
     finally:
@@ -185,16 +203,41 @@ async def _hist_impl(cfg: str, w: int, ops: list) -> list[str]:
     return outs
 
 
+TIMED_OPS = ("expire", "adv", "del", "touch")
+
+
 def _hist_spec(w: int, ops: list):
-    """the property statement evaluated in Python: dict of independent saturating counters per key;
-    also collects the interesting states"""
+    """the property statement evaluated in Python: per key a dict of independent saturating counters that lives until it
+    is deleted or its deadline passes (eager expiry: at that instant every counter is 0 again and the deadline is gone,
+    whether or not anything looked at the key); also collects the interesting states"""
     mask = (1 << w) - 1
-    ctr: dict = {}
+    ctr: dict = {}          # key -> {index: value}
+    dl: dict = {}           # key -> absolute deadline in ticks (only for live keys with a TTL)
+    live: set = set()       # keys that hold an array
+    stale: set = set()      # keys whose deadline passed and that no command has touched since (entry physically still stored)
+    now = 0
     outs, stats = [], set()
     for op in ops:
-        c = ctr.setdefault(op[1], {})
+        if op[0] == "adv":
+            now += op[1]
+            for key in [k for k, d in dl.items() if d <= now]:
+                del dl[key]
+                ctr[key] = {}
+                live.discard(key)
+                stale.add(key)
+                stats.add("deadline_passed")
+            outs.append("r=-")
+            continue
+        key = op[1]
+        c = ctr.setdefault(key, {})
+        was_stale = key in stale
+        stale.discard(key)
         if op[0] == "incr":
             by, idxs = op[2], op[3]
+            if was_stale and idxs:
+                stats.add("incr_on_run_out_unpurged_entry")
+            if key in dl and idxs:
+                stats.add("incr_keeps_deadline")
             if len(set(idxs)) < len(idxs):
                 stats.add("index_repeated_in_one_command")
             res = []
@@ -210,19 +253,51 @@ def _hist_spec(w: int, ops: list):
                         stats.add("width_not_pow2_with_neighbours")
                 c[i] = min(max(0, old + by), mask)
                 res.append(c[i])
+            live.add(key)
             outs.append("r=" + showl(res))
-        else:
+        elif op[0] == "get":
+            if was_stale and op[2]:
+                stats.add("read_on_run_out_unpurged_entry")
             for i in op[2]:
                 if i not in c:
                     stats.add("read_never_written")
             outs.append("r=" + showl([c.get(i, 0) for i in op[2]]))
-    if len(ctr) > 1:
+        elif op[0] == "expire":
+            if key in live and op[2]:
+                dl[key] = now + op[2]
+                stats.add("deadline_set")
+            outs.append("r=-")
+        elif op[0] == "del":
+            outs.append(f"r={int(key in live)}")
+            if key in live:
+                stats.add("delete_live_array")
+            live.discard(key)
+            dl.pop(key, None)
+            ctr[key] = {}
+        elif op[0] == "touch":
+            outs.append(f"r={int(key in live)}")
+        else:
+            raise HarnessError(f"unknown history op {op}")
+    if len({op[1] for op in ops if op[0] != "adv"}) > 1:
         stats.add("two_keys_interleaved")
     return outs, stats
 
 
+def _hist_line(op: list) -> str:
+    if op[0] == "incr":
+        return f"incrbits {op[2]} {showl(op[3])}"
+    if op[0] == "get":
+        return f"getbits {showl(op[2])}"
+    if op[0] == "expire":
+        return f"expire {op[2]}"
+    if op[0] == "adv":
+        return f"adv {op[1]}"
+    return {"del": "del", "touch": "touch"}[op[0]]
+
+
 def eval_hist(cases: list[dict]) -> list[Res]:
-    """case = {kind:'hist', cfg, w, ops:[['incr', key, by, [idx..]] | ['get', key, [idx..]]]}"""
+    """case = {kind:'hist', cfg, w, ops:[['incr', key, by, [idx..]] | ['get', key, [idx..]] | ['expire', key, ttl_ticks] |
+    ['del', key] | ['touch', key] | ['adv', ticks]]}  (timed ops only with cfg memory / facade)"""
     out, lines, where = [], [], []
     for ci, c in enumerate(cases):
         r = Res()
@@ -233,13 +308,13 @@ def eval_hist(cases: list[dict]) -> list[Res]:
         for k, (o, s) in enumerate(zip(impl, spec)):
             if o != s and r.diff_spec is None:
                 r.diff_spec = f"step {k} {ops[k]} (width {w}, {c['cfg']}): implementation {o}, independent saturating counters {s}"
-        for key in sorted({op[1] for op in ops}):
+        for key in sorted({op[1] for op in ops if op[0] != "adv"}):
             lines.append(f"bits {w}")
             where.append(None)
-            for k, op in enumerate(ops):
-                if op[1] != key:
+            for k, op in enumerate(ops):        # one model instance per key; time passes for every key
+                if op[0] != "adv" and op[1] != key:
                     continue
-                lines.append(f"incrbits {op[2]} {showl(op[3])}" if op[0] == "incr" else f"getbits {showl(op[2])}")
+                lines.append(_hist_line(op))
                 where.append((ci, k))
         out.append(r)
     answers = DRIVER.ask(lines) if lines else []
@@ -469,6 +544,80 @@ def bloom_params(capacity, fp):
     return m, k
 
 
+# signatures of the wrapped predicate: (parameter names, number of positional-or-keyword parameters - the rest is
+# keyword-only -, defaults).  An ELEMENT is the tuple of the call's bound arguments after defaults (the C08 notion of
+# "the same call"); the same element can be passed in several equivalent call forms.
+DFLT = "dflt"
+SIGS = {
+    "k": (("k",), 1, {}),
+    "k_t": (("k", "t"), 2, {"t": DFLT}),
+    "k_kwt": (("k", "t"), 1, {"t": DFLT}),
+    "a_b": (("a", "b"), 2, {}),
+    "k_t_u": (("k", "t", "u"), 2, {"t": DFLT, "u": "u0"}),
+}
+SIG_NAMES = {                   # explicit key templates that may be used with a signature (None = the generated template)
+    "k": ["el:{k}"],
+    "k_t": ["el:{k}:{t}", "{t}/{k}"],
+    "k_kwt": ["el:{k}:{t}", "{t}/{k}"],
+    "a_b": ["el:{a}:{b}", "{b}-{a}"],
+    "k_t_u": ["el:{k}:{t}:{u}", "{u}{t}{k}"],
+}
+
+
+def make_pred(sig: str, on_call):
+    """a fresh coroutine function with the given signature; `on_call(element)` produces its answer"""
+    if sig == "k":
+        async def pred(k):
+            return on_call((k,))
+    elif sig == "k_t":
+        async def pred(k, t=DFLT):
+            return on_call((k, t))
+    elif sig == "k_kwt":
+        async def pred(k, *, t=DFLT):
+            return on_call((k, t))
+    elif sig == "a_b":
+        async def pred(a, b):
+            return on_call((a, b))
+    elif sig == "k_t_u":
+        async def pred(k, t=DFLT, *, u="u0"):
+            return on_call((k, t, u))
+    else:
+        raise HarnessError(f"unknown signature {sig}")
+    return pred
+
+
+def call_forms(sig: str, el: tuple) -> list:
+    """every equivalent call form (args, kwargs) of the element, in a fixed order: the first `npos` parameters positional,
+    the others by keyword (in declaration order and in reverse order), a parameter whose value is its default passed or omitted"""
+    names, maxpos, defaults = SIGS[sig]
+    if len(el) != len(names):
+        raise HarnessError(f"element {el!r} does not fit signature {sig}")
+    forms = []
+    for npos in range(maxpos, -1, -1):
+        rest = names[npos:]
+        optional = [n for n in rest if n in defaults and defaults[n] == el[names.index(n)]]
+        for mask in range(1 << len(optional)):
+            omitted = {n for b, n in enumerate(optional) if mask >> b & 1}
+            kw = [(n, el[names.index(n)]) for n in rest if n not in omitted]
+            for order in (kw, kw[::-1]):
+                form = (tuple(el[:npos]), dict(order))
+                if not any(f[0] == form[0] and list(f[1].items()) == list(form[1].items()) for f in forms):
+                    forms.append(form)
+    return forms
+
+
+def step_element(sig: str, st: list):
+    """(element tuple, form index) of an add/query step; old-style steps carry a bare string for signature `k`"""
+    el = st[1]
+    el = (el,) if isinstance(el, str) else tuple(el)
+    return el, (st[2] if len(st) > 2 else 0)
+
+
+def show_call(form) -> str:
+    args, kwargs = form
+    return "(" + ", ".join([repr(a) for a in args] + [f"{k}={v!r}" for k, v in kwargs.items()]) + ")"
+
+
 async def _bloom_impl(c: dict):
     from cashews.decorators.bloom import bloom
     from cashews.key import get_cache_key, get_cache_key_template
@@ -476,13 +625,16 @@ async def _bloom_impl(c: dict):
     rec: list = []
     be = await _mk_backend(c["via"], rec)
     yes, no = TRUTHY[c.get("truthy", "bool")]
-    true_set = set(c["true_set"])
+    sig = c.get("sig", "k")
+    names = SIGS[sig][0]
+    true_set = {(e,) if isinstance(e, str) else tuple(e) for e in c["true_set"]}
     calls: list = []
 
-    async def pred(k):
-        calls.append(k)
-        return yes if k in true_set else no
+    def on_call(el):
+        calls.append(el)
+        return yes if el in true_set else no
 
+    pred = make_pred(sig, on_call)
     steps = []
     try:
         kw = dict(capacity=c["capacity"], false_positives=c["fp"], check_false_positive=c["chk"], name=c["name"])
@@ -492,27 +644,59 @@ async def _bloom_impl(c: dict):
         except AssertionError:
             return {"decorate": "assert", "steps": []}
         tpl = get_cache_key_template(pred, key=c["name"])
-        for kind, el in c["steps"]:
+        params = bloom_params(c["capacity"], c["fp"])
+        filter_key = f"bloom:{tpl}:{params[0]}" if not isinstance(params, str) else None
+        for st in c["steps"]:
+            kind = st[0]
             del rec[:], calls[:]
-            key = get_cache_key(pred, tpl, (el,), {})
+            if kind in ("add", "query"):
+                el, fi = step_element(sig, st)
+                forms = call_forms(sig, el)
+                args, kwargs = forms[fi % len(forms)]
+                # the element's key: the library's own key function on the canonical call (every parameter by keyword, defaults filled in)
+                key = get_cache_key(pred, tpl, (), dict(zip(names, el)))
+                try:
+                    res = await (func.set(*args, **kwargs) if kind == "add" else func(*args, **kwargs))
+                    outcome = "T" if res else "F"
+                except Exception as e:  # noqa: BLE001
+                    outcome = "E:" + type(e).__name__
+                steps.append({"kind": kind, "el": list(el), "call": show_call((args, kwargs)), "key": key, "impl": outcome, "called": bool(calls),
+                              "backend": [(n, k, sorted(i), kw2) for n, k, i, kw2 in rec], "nidx": [len(i) for _, _, i, _ in rec]})
+                continue
+            # commands on the filter's own key / passage of time (the filter is an ordinary key of the backend)
             try:
-                res = await (func.set(el) if kind == "add" else func(el))
-                outcome = "T" if res else "F"
+                if kind == "adv":
+                    vtime.CLOCK.advance(st[1])
+                    outcome = "-"
+                elif kind == "expire":
+                    res = await be.expire(filter_key, st[1] * vtime.TICK)
+                    outcome = "-" if res is None else f"?{res!r}"
+                elif kind == "del":
+                    outcome = str(int(await be.delete(filter_key)))
+                elif kind == "touch":
+                    outcome = str(int(await be.exists(filter_key)))
+                else:
+                    raise HarnessError(f"unknown bloom step {st}")
+            except HarnessError:
+                raise
             except Exception as e:  # noqa: BLE001
                 outcome = "E:" + type(e).__name__
-            steps.append({"kind": kind, "el": el, "key": key, "impl": outcome, "called": bool(calls),
-                          "backend": [(n, k, sorted(i), kw2) for n, k, i, kw2 in rec], "nidx": [len(i) for _, _, i, _ in rec]})
+            steps.append({"kind": kind, "arg": st[1] if len(st) > 1 else None, "impl": outcome, "backend": [], "nidx": []})
         return {"decorate": "ok", "tpl": tpl, "steps": steps}
     finally:
         await be.close()
 
 
 def eval_bloom(cases: list[dict]) -> list[Res]:
-    """case = {kind:'bloom', via, capacity, fp, chk, name, truthy, true_set:[el], steps:[['add'|'query', el]]}"""
+    """case = {kind:'bloom', via, capacity, fp, chk, name, truthy, sig, true_set:[el], steps:[...]} with steps
+    ['add'|'query', el, form] (el = list of the call's bound arguments after defaults, form = which of the element's
+    equivalent call forms is used; a bare string el = signature `k`), ['expire', ttl_ticks] / ['del'] / ['touch'] on the
+    filter's own key, ['adv', ticks]"""
     out, lines, where = [], [], []
     funcs = alg_list("real")
     for ci, c in enumerate(cases):
         r = Res()
+        sig = c.get("sig", "k")
         params = bloom_params(c["capacity"], c["fp"])
         impl = vtime.run(_bloom_impl, c)
         r.trace = [{"params_for": params, "decorate": impl["decorate"]}] + impl["steps"]
@@ -526,33 +710,74 @@ def eval_bloom(cases: list[dict]) -> list[Res]:
         if not (0 < k <= m):
             r.diff_spec = f"params_for({c['capacity']}, {c['fp']}/100) = (m={m}, k={k}) violates 0 < k <= m"
             continue
-        true_set = set(c["true_set"])
-        added = set()
+        true_set = {(e,) if isinstance(e, str) else tuple(e) for e in c["true_set"]}
+        # the property's own bookkeeping: which elements are in the filter.  The filter is a key of the backend: it is
+        # empty again once that key was deleted or its deadline has passed (eagerly, whether anything looked or not)
+        added: dict = {}        # element -> set of call forms it was added through
         nadded = 0
+        now, deadline, live, stale = 0, None, False, False
         lines.append("bloom")
         where.append(None)
         want_key = f"bloom:{impl['tpl']}:{m}"
         for si, st in enumerate(impl["steps"]):
-            el, kind = st["el"], st["kind"]
+            kind = st["kind"]
+            if kind not in ("add", "query"):
+                if st["impl"].startswith(("E:", "?")) and r.diff_spec is None:
+                    r.diff_spec = f"step {si}: {kind} on the filter's key {want_key!r} gave {st['impl']}"
+                if kind == "adv":
+                    now += st["arg"]
+                    if deadline is not None and deadline <= now:
+                        added, nadded, deadline, live, stale = {}, 0, None, False, True
+                        r.stats.add("filter_deadline_passed")
+                    lines.append(f"badv {st['arg']}")
+                elif kind == "expire":
+                    if live and st["arg"]:
+                        deadline = now + st["arg"]
+                        r.stats.add("filter_deadline_set")
+                    stale = False
+                    lines.append(f"bexpire {st['arg']}")
+                elif kind == "del":
+                    added, nadded, deadline, live, stale = {}, 0, None, False, False
+                    lines.append("bdel")
+                else:
+                    if st["impl"] != str(int(live)) and r.diff_spec is None:
+                        r.diff_spec = f"step {si}: exists({want_key!r}) = {st['impl']}, the filter {'holds' if live else 'does not hold'} an array"
+                    stale = False
+                    lines.append("btouch")
+                where.append((ci, si, "cmd"))
+                continue
+            el = tuple(st["el"])
             under = el in true_set
             # --- the property itself, on the implementation's own answers
             if kind == "query" and el in added:
                 r.stats.add("query_of_added_element")
+                if st["call"] not in added[el]:
+                    r.stats.add("query_of_added_element_in_another_call_form")
                 if nadded > c["capacity"]:
                     r.stats.add("query_of_added_element_beyond_capacity")
                 if st["impl"] != "T" and r.diff_spec is None:
-                    r.diff_spec = (f"step {si}: the bloom-decorated predicate answered {st['impl']} for {el!r}, which was added "
-                                   f"(capacity={c['capacity']}, false_positives={c['fp']}, {nadded} elements added)")
+                    r.diff_spec = (f"step {si}: the bloom-decorated predicate answered {st['impl']} for the call {st['call']}: this element "
+                                   f"{el!r} was added (through {sorted(added[el])}; capacity={c['capacity']}, "
+                                   f"false_positives={c['fp']}, {nadded} elements in the filter)")
             if kind == "query" and el not in added and st["impl"] == "T" and not c["chk"]:
                 r.stats.add("false_positive_observed")
             if kind == "query" and el not in added and c["chk"] and st["called"]:
                 r.stats.add("false_positive_checked_by_call")
+            if kind == "query" and stale:
+                r.stats.add("query_on_run_out_unpurged_filter")
             if kind == "add" and st["impl"] == "T":
+                if stale:
+                    r.stats.add("add_on_run_out_unpurged_filter")
+                if deadline is not None:
+                    r.stats.add("add_keeps_filter_deadline")
                 if el not in added:
                     nadded += 1
-                added.add(el)
+                added.setdefault(el, set()).add(st["call"])
+                live = True
+            if kind == "query" or st["impl"] == "T":
+                stale = False
             if kind == "add" and st["impl"] not in ("T", "F") and r.diff_spec is None:
-                r.diff_spec = f"step {si}: func.set({el!r}) raised {st['impl']}"
+                r.diff_spec = f"step {si}: func.set{st['call']} raised {st['impl']}"
             # --- model
             lines.append(idx_line("e", st["key"], k, m, funcs))
             where.append((ci, si, "idx"))
@@ -575,7 +800,10 @@ def eval_bloom(cases: list[dict]) -> list[Res]:
         st = r.trace[1 + si]
         if ans == "bad-op":
             raise HarnessError(f"driver rejected `{line[:80]}`")
-        if what == "idx":
+        if what == "cmd":
+            if ans != "ok":
+                raise HarnessError(f"driver answered `{ans}` to `{line}`")
+        elif what == "idx":
             st["model_indexes"] = ans
             if not ans.startswith("S="):
                 r.diff_model = r.diff_model or f"step {si}: model could not derive indexes for {st['key']!r}: {ans}"
@@ -586,7 +814,8 @@ def eval_bloom(cases: list[dict]) -> list[Res]:
             got = [(n, i) for n, _, i, _ in st["backend"]]
             want = [(expect_cmd, S)] if expect_cmd else []
             if got != want and r.diff_model is None and not st["impl"].startswith("E:"):
-                r.diff_model = f"step {si} ({st['kind']} {st['el']!r}): backend received {got}, model expects {want}"
+                r.diff_model = (f"step {si} ({st['kind']} {st['call']}): backend received {got}, model expects {want} "
+                                f"(indexes of the element's key {st['key']!r})")
             if st["backend"] and any(n != len(set(i)) for n, (_, _, i, _) in zip(st["nidx"], st["backend"])):
                 r.diff_model = r.diff_model or f"step {si}: duplicate indexes passed to the backend"
         elif what == "add":
@@ -596,7 +825,7 @@ def eval_bloom(cases: list[dict]) -> list[Res]:
             st["model"] = ans
             parts = dict(p.split("=", 1) for p in ans.split(" "))
             if (st["impl"], "T" if st["called"] else "F") != (parts["ans"], parts["calls"]) and r.diff_model is None:
-                r.diff_model = (f"step {si} (query {st['el']!r}): implementation answered {st['impl']} (wrapped function called: "
+                r.diff_model = (f"step {si} (query {st['call']}): implementation answered {st['impl']} (wrapped function called: "
                                 f"{st['called']}), model ans={parts['ans']} calls={parts['calls']}")
     return out
 
@@ -607,13 +836,16 @@ async def _dual_impl(c: dict):
 
     rec: list = []
     be = await _mk_backend(c["via"], rec)
-    true_set = set(c["true_set"])
+    sig = c.get("sig", "k")
+    names = SIGS[sig][0]
+    true_set = {(e,) if isinstance(e, str) else tuple(e) for e in c["true_set"]}
     calls: list = []
 
-    async def pred(k):
-        calls.append(k)
-        return k in true_set
+    def on_call(el):
+        calls.append(el)
+        return el in true_set
 
+    pred = make_pred(sig, on_call)
     steps = []
     try:
         kw = dict(capacity=c["capacity"], false=c["false"], no_collisions=c["no_collisions"], name=c["name"])
@@ -622,15 +854,18 @@ async def _dual_impl(c: dict):
         except AssertionError:
             return {"decorate": "assert", "steps": []}
         tpl = "dual_bloom:" + get_cache_key_template(pred, key=c["name"])
-        for el in c["calls"]:
+        for call in c["calls"]:
             del rec[:], calls[:]
-            key = get_cache_key(pred, tpl, (el,), {})
+            el, fi = step_element(sig, ["call"] + (call if isinstance(call, list) else [call]))
+            forms = call_forms(sig, el)
+            args, kwargs = forms[fi % len(forms)]
+            key = get_cache_key(pred, tpl, (), dict(zip(names, el)))     # canonical call: every parameter by keyword, defaults filled in
             try:
-                res = await func(el)
+                res = await func(*args, **kwargs)
                 outcome = "T" if res is True else "F" if res is False else f"?{res!r}"
             except Exception as e:  # noqa: BLE001
                 outcome = "E:" + type(e).__name__
-            steps.append({"el": el, "key": key, "impl": outcome, "called": bool(calls),
+            steps.append({"el": list(el), "call": show_call((args, kwargs)), "key": key, "impl": outcome, "called": bool(calls),
                           "backend": [(n, k, sorted(i)) for n, k, i, _ in rec]})
         return {"decorate": "ok", "tpl": tpl, "steps": steps}
     finally:
@@ -638,8 +873,9 @@ async def _dual_impl(c: dict):
 
 
 def eval_dual(cases: list[dict]) -> list[Res]:
-    """case = {kind:'dual', via, capacity, false, no_collisions, name, true_set, calls:[el]} - correspondence
-    with the model only (dual_bloom's documentation allows false negatives; the property is silent)"""
+    """case = {kind:'dual', via, capacity, false, no_collisions, name, sig, true_set, calls:[[el, form] | el]} - correspondence
+    with the model only (dual_bloom's documentation allows false negatives; the property is silent): answers, whether the
+    wrapped function ran, and which indexes of which filter reached the backend - whatever call form the element came in"""
     out, lines, where = [], [], []
     funcs = alg_list("real")
     for ci, c in enumerate(cases):
@@ -650,7 +886,7 @@ def eval_dual(cases: list[dict]) -> list[Res]:
                   false=tuple(c["false"]) if isinstance(c["false"], list) else c["false"])
         pt, pf = bloom_params(cap[0], fl[0]), bloom_params(cap[1], fl[1])
         impl = vtime.run(_dual_impl, cc)
-        r.trace = [{"params_true": pt, "params_false": pf, "decorate": impl["decorate"]}] + impl["steps"]
+        r.trace = [{"params_true": pt, "params_false": pf, "decorate": impl["decorate"], "tpl": impl.get("tpl")}] + impl["steps"]
         out.append(r)
         if isinstance(pt, str) or isinstance(pf, str) or impl["decorate"] != "ok":
             if ("assert" in (pt, pf)) != (impl["decorate"] == "assert"):
@@ -659,13 +895,30 @@ def eval_dual(cases: list[dict]) -> list[Res]:
         (mt, kt), (mf, kf) = pt, pf
         lines.append("dual")
         where.append(None)
-        true_set = set(c["true_set"])
+        true_set = {(e,) if isinstance(e, str) else tuple(e) for e in c["true_set"]}
+        seen_forms: dict = {}
+        recorded: dict = {}     # element -> the call that wrote its bits into the true filter
+        true_key = impl["tpl"] + ":true"
         for si, st in enumerate(impl["steps"]):
+            el = tuple(st["el"])
+            if seen_forms.setdefault(el, st["call"]) != st["call"]:
+                r.stats.add("same_element_in_another_call_form")
+            # what can be said of dual_bloom at the level of the property (theorem dual_recorded_never_false): an element
+            # whose bits it wrote into the true filter is never answered False afterwards, in whatever call form it comes
+            if el in recorded:
+                r.stats.add("call_for_recorded_element")
+                if recorded[el] != st["call"]:
+                    r.stats.add("call_for_recorded_element_in_another_call_form")
+                if st["impl"] != "T" and r.diff_spec is None:
+                    r.diff_spec = (f"call {si}: dual_bloom answered {st['impl']} for the call {st['call']}: it had recorded this element "
+                                   f"{el!r} as true (call {recorded[el]}) and the wrapped function still answers True")
+            if st["impl"] == "T" and any(n == "incr_bits" and bk == true_key for n, bk, _ in st["backend"]):
+                recorded.setdefault(el, st["call"])
             lines.append(idx_line("t", st["key"] + "true", kt, mt, funcs))
             where.append((ci, si, "it"))
             lines.append(idx_line("f", st["key"] + "false", kf, mf, funcs))
             where.append((ci, si, "if"))
-            lines.append(f"dcall {'T' if c['no_collisions'] else 'F'} {'T' if st['el'] in true_set else 'F'} $t $f")
+            lines.append(f"dcall {'T' if c['no_collisions'] else 'F'} {'T' if tuple(st['el']) in true_set else 'F'} $t $f")
             where.append((ci, si, "call"))
     answers = DRIVER.ask(lines) if lines else []
     for ans, wh, line in zip(answers, where, lines):
@@ -680,11 +933,22 @@ def eval_dual(cases: list[dict]) -> list[Res]:
             st["model_" + what] = ans.split(" ")[0]
             if not ans.startswith("S="):
                 r.diff_model = r.diff_model or f"call {si}: model could not derive indexes: {ans}"
+                continue
+            S = ans.split(" ")[0][2:]
+            S = sorted(int(x) for x in S.split(",")) if S != "-" else []
+            fkey = r.trace[0]["tpl"] + (":true" if what == "it" else ":false")
+            reads = [i for n, bk, i in st["backend"] if n == "get_bits" and bk == fkey]
+            if reads != [S] and r.diff_model is None and not st["impl"].startswith("E:"):
+                r.diff_model = (f"call {si} {st['call']}: get_bits on {fkey!r} with indexes {reads}, model expects {[S]} "
+                                f"(indexes of the element's key {st['key']!r})")
+            writes = [i for n, bk, i in st["backend"] if n == "incr_bits" and bk == fkey]
+            if any(wr != S for wr in writes) and r.diff_model is None:
+                r.diff_model = f"call {si} {st['call']}: incr_bits on {fkey!r} with indexes {writes}, model expects {S}"
         else:
             st["model"] = ans
             parts = dict(p.split("=", 1) for p in ans.split(" "))
             if (st["impl"], "T" if st["called"] else "F") != (parts["ans"], parts["calls"]) and r.diff_model is None:
-                r.diff_model = (f"call {si} ({st['el']!r}): dual_bloom answered {st['impl']} (wrapped function called: {st['called']}), "
+                r.diff_model = (f"call {si} {st['call']}: dual_bloom answered {st['impl']} (wrapped function called: {st['called']}), "
                                 f"model ans={parts['ans']} calls={parts['calls']}")
             if not st["called"]:
                 r.stats.add("answered_from_filters")
